@@ -38,9 +38,14 @@ def run_world(aiu, w, prefix=(), expect=None):
         return [t.name for t in sched.pool_threads if t.status != 'done'] + \
             tx.idle_workers(sched, exclude=(aiu._CROSS_LOOP_POOL,))
 
+    live = obs['live_got'] = []
+
     def gen():
         for i, v in enumerate(vals):
             obs['prod_threads'].add(sched.current_id())
+            if w.get('lockstep') and i:
+                # the source produces its next element only once the consumer has seen the previous one
+                sched.wait_until(lambda i=i: len(live) >= i, None, 'consumer-ack')
             if w['step']:
                 a = sched.now
                 sched.sleep(w['step'])
@@ -98,11 +103,12 @@ def run_world(aiu, w, prefix=(), expect=None):
 
             async def main():
                 obs['loop_thread'] = sched.current_id()
-                ticker = asyncio.ensure_future(tick())
+                ticker = asyncio.ensure_future(tick()) if w.get('ticker', True) else None
                 got = []
                 try:
                     async for x in aiu.to_async_iter(source()):
                         got.append(x)
+                        live.append(x)
                         if w['pause']:
                             await asyncio.sleep(w['pause'])
                     end = ('stop',)
@@ -111,7 +117,8 @@ def run_world(aiu, w, prefix=(), expect=None):
                         raise
                     end = ('exc', e)
                 obs['got'], obs['end'], obs['live'] = got, end, live_workers()
-                ticker.cancel()
+                if ticker is not None:
+                    ticker.cancel()
             asyncio.run(main(), loop_factory=lambda: sched.new_loop('C'))
     elif w['api'] == 'sync2':      # two bridges alive at the same time (zip), default loops
         vloop.install_policy()
@@ -182,7 +189,7 @@ def check(x, w):
     if obs['live']:
         bad.append(('helper_thread_left_running', f'{obs["live"]} alive when iteration finished'))
     # the loop must keep ticking while the producer thread is blocked in next()
-    if w['api'] == 'async' and w['kind'] in ('gen', 'citer') and w['step']:
+    if w['api'] == 'async' and w['kind'] in ('gen', 'citer') and w['step'] and w.get('ticker', True):
         if obs['loop_thread'] in obs['prod_threads']:
             bad.append(('iterator_runs_on_loop_thread', 'the synchronous iterator was advanced by the loop thread'))
         for a, b in obs['prod_sleeps']:
@@ -217,6 +224,13 @@ def worlds(tier):
                                 threaded = kind in ('gen', 'iter', 'agen', 'citer')
                                 pb = (3 if n <= 2 else 2) if q else (4 if n <= 2 else 3)
                                 out.append((w, pb if threaded else 0))
+    # an otherwise idle loop (no ticker) and a source in lock-step with its consumer
+    for kind in ('gen', 'citer'):
+        for n in (1, 2, 3) if q else (1, 2, 3, 4):
+            for fp in (None, n - 1, n):
+                for step in (0.0, D):
+                    out.append((dict(api='async', kind=kind, n=n, failpos=fp, step=step, pause=0.0, own_loop=False,
+                                     lockstep=True, ticker=False), 2 if q else 3))
     for n in (1, 2, 3):
         for step in (0.0, D):
             out.append((dict(api='sync2', kind='agen', n=n, failpos=None, step=step, pause=0.0, own_loop=False),
@@ -279,7 +293,8 @@ def main(tier):
               'at every position or none, producer step duration and consumer pause in {0, D}; every interleaving '
               'with <= PB preemptions of the producer thread with the consumer (line-granular + shim operations); '
               'oracle: sequence == source prefix, same exception instance, ticker keeps ticking while the '
-              'producer is blocked, no helper thread alive at the end'),
+              'producer is blocked, no helper thread alive at the end; plus lock-step sources (next element only after the '
+              'consumer saw the previous one) on an otherwise idle loop: iteration must still finish'),
         assumptions=['one aiuti source line / stdlib call is atomic', 'virtual clock'])
 
 
